@@ -190,6 +190,8 @@ def body_geometry(case):
         labels.add("all_kept")
     if N % 7 == 0 or N in (49, 98, 103, 107, 196):
         labels.add("awkward_N")
+    if case["date"][:10] in ("2016-12-31", "2015-06-30", "2012-06-30", "2008-12-31", "2005-12-31") and T >= 3600:
+        labels.add("window_with_leap_second")
     return labels
 
 
@@ -247,7 +249,52 @@ def body_darksky(case):
         labels.add("moon_up_but_dim")
     if np.any((moon > 0) & (moon < mc) & (sun < sc) & (ph < pc)):
         labels.add("bright_moon_between_0_and_limit")
+    if N > 4096:
+        labels.add("N>4096")
     return labels
+
+
+def body_darksky_blocks(case):
+    """k*4096+1 instants: the mask is evaluated at EVERY instant. Oracle: cyclic-shift equivariance of the array call
+    (each shift puts a different instant last / at a block edge) plus per-instant scalar calls at the edges."""
+    from astropy.time import Time, TimeDelta
+
+    from nuspacesim.simulation.geometry.too import ToOEvent
+
+    conf = _config(case)
+    N, T = case["n"], case["T"]
+    t0 = Time(case["date"], format="isot", scale="utc")
+    dt = np.arange(N) * (T / N)
+    with quiet():
+        too = ToOEvent(conf)
+        with cut(f"sun_moon_cut({N} instants)"):
+            base = np.asarray(too.sun_moon_cut(t0 + TimeDelta(dt, format="sec")), dtype=bool)
+        require(base.shape == (N,), f"mask has shape {base.shape} for {N} instants")
+        for r in case["rolls"]:
+            r = r % N
+            with cut(f"sun_moon_cut({N} instants, cyclically shifted by {r})"):
+                m = np.asarray(too.sun_moon_cut(t0 + TimeDelta(np.roll(dt, r), format="sec")), dtype=bool)
+            bad = np.where(m != np.roll(base, r))[0]
+            require(bad.size == 0, f"shifting the {N} instants cyclically by {r} changes the dark-sky result of {bad.size} instants (first at shifted position {int(bad[0]) if bad.size else -1}): the mask is not evaluated instant by instant")
+        for i in (0, 4095 % N, 4096 % N, N - 1):
+            one = bool(np.asarray(too.sun_moon_cut(t0 + TimeDelta(dt[i], format="sec"))))
+            require(one == bool(base[i]), f"instant {i} of {N}: array call says {bool(base[i])}, a call for that instant alone says {one}")
+    labels = {"N>4096"}
+    if base.any() and (~base).any():
+        labels.add("mixed_mask")
+    return labels
+
+
+def _block_cases(tier):
+    import os
+
+    seed = int(os.environ.get("VERIF_SEED", "1") or "1")
+    for i, n in enumerate([4097] if tier == "quick" else [4097, 8193, 12289]):
+        yield {
+            "ra": 1.0 + 0.1 * (seed % 17), "dec": -0.3, "date": f"20{10 + (seed + i) % 20:02d}-03-{1 + (seed * 7 + i) % 27:02d}T06:00:00", "T": 86400.0 * (2 + (seed + i) % 3), "n": n,
+            "lat": 0.4 - 0.05 * (seed % 9), "lon": 2.0, "alt": 525.0, "afl_frac": 0.3, "sun_cut": math.radians(-6.0), "moon_cut": math.radians(5.0), "phase_cut": math.radians(150.0),
+            "rolls": [n // 3, (2 * n) // 3, n // 7, 1],
+        }
 
 
 date_st = st.tuples(st.integers(2000, 2034), st.integers(1, 12), st.integers(1, 28), st.integers(0, 23), st.integers(0, 59), st.integers(0, 59)).map(
@@ -256,7 +303,8 @@ date_st = st.tuples(st.integers(2000, 2034), st.integers(1, 12), st.integers(1, 
 common = {
     "ra": st.one_of(st.floats(0.0, 2 * math.pi), st.sampled_from([0.0, math.pi, 2 * math.pi])),
     "dec": st.one_of(st.floats(-0.5 * math.pi, 0.5 * math.pi), st.sampled_from([0.0, 0.5 * math.pi, -0.5 * math.pi, math.radians(-23.4)])),
-    "date": st.one_of(date_st, st.just("2022-06-02T01:00:00")),
+    # incl. windows that contain a leap second (UTC days of 86401 s: 2005, 2008, 2012, 2015, 2016)
+    "date": st.one_of(date_st, st.just("2022-06-02T01:00:00"), st.sampled_from(["2016-12-31T12:00:00", "2015-06-30T18:00:00", "2012-06-30T23:00:00", "2008-12-31T00:30:00", "2005-12-31T20:00:00", "2016-12-31T23:59:30"])),
     "T": st.one_of(log_uniform(1.0, 864000.0), st.sampled_from([86400.0, 3600.0, 1.0, 864000.0, 5400.0])),
     "n": st.one_of(st.integers(1, 400), st.sampled_from([1, 2, 49, 98, 103, 107, 196, 100, 400, 7, 3])),
     "lat": st.one_of(st.floats(-0.5 * math.pi, 0.5 * math.pi), st.sampled_from([0.0, 0.5 * math.pi, -0.5 * math.pi])),
@@ -276,6 +324,7 @@ geo_common = dict(
 dark_common = dict(
     common,
     T=st.one_of(st.sampled_from([86400.0, 3 * 86400.0, 864000.0, 2 * 86400.0]), log_uniform(3600.0, 864000.0)),
+    # block-sized instant counts (k*4096 + 1) in about one case of sixteen: each costs seconds of ephemeris time
     n=st.one_of(st.integers(24, 400), st.sampled_from([49, 98, 103, 400, 240])),
     moon_cut=st.one_of(st.floats(math.radians(-10), math.radians(30)), st.sampled_from([0.0, math.radians(10.0), math.radians(-10.0), math.radians(25.0), math.radians(30.0)])),
     phase_cut=st.one_of(st.floats(0.0, math.pi), st.sampled_from([math.radians(150.0), math.radians(150.0), math.pi])),
@@ -309,5 +358,14 @@ SUBCHECKS = [
         doc="boolean formula on topocentric Sun/Moon altitudes and vector phase angle; array == per-instant; monotone in thresholds",
         tolerances={"angle_band_deg": 0.02},
         shrink=False,
+    ),
+    SubCheck(
+        "dark_sky_block_sizes",
+        None,
+        body_darksky_blocks,
+        lambda labels: "N>4096" in labels,
+        {"quick": 1},
+        doc="the dark-sky mask for k*4096+1 instants (4097 on every run, 8193/12289 in the thorough tier): cyclic-shift equivariance of the array call + scalar calls at block edges",
+        exhaustive=lambda tier: _block_cases(tier),
     ),
 ]
